@@ -1,4 +1,5 @@
 import OxiModel.PipelineProofs
+import OxiModel.Meta
 /-
   C08 — disabled transformation classes are really disabled.
   One frame lemma per operation ("what it may change"), the guard table, and the closure over
@@ -189,5 +190,21 @@ example : allowed ⟨true, false, false, false, none, false, false⟩ .depth16to
     applyOp ⟨true, false, false, false, none, false, false⟩ .depth16to8
       ⟨⟨1, 1, .rgb none, 16, false⟩, [7, 7, 8, 8, 9, 9]⟩ = some ⟨⟨1, 1, .rgb none, 8, false⟩, [7, 8, 9]⟩ := by
   decide
+
+/-! ### the pre-pass over the chunks can only take permissions away -/
+
+/-- **`preprocess_chunks` never switches a disabled class on**: whatever the chunks, the strip policy
+    and the profile contents, every permission of the options it returns was already given by the
+    caller (so the switch theorems above apply with the caller's switches). -/
+theorem prepass_only_restricts (aux : List Chunk) (o : MetaOpts) (inf : Bytes → Option Bytes)
+    (rc : Bytes → Nat → Option Bytes) :
+    let o' := (preprocessChunks aux o inf rc).2
+    (o'.grayscale = true → o.grayscale = true) ∧ (o'.bitDepth = true → o.bitDepth = true) ∧
+    (o'.colorType = true → o.colorType = true) ∧ (o'.palette = true → o.palette = true) ∧
+    (o'.interlace = o.interlace ∨ o'.interlace = none) := by
+  simp only [preprocessChunks, finishOpts]
+  generalize (iccStage aux o inf rc).2 = allow
+  generalize (iccStage aux o inf rc).1 = aux'
+  cases allow <;> cases hg : o.grayscale <;> cases hasChunk aux' (nm "acTL") <;> simp [hg]
 
 end OxiModel.C08
